@@ -108,9 +108,8 @@ def check_case(lines, obs):
                                 [str(w) for w in want][:8], [str(h) for h in have][:8])
         elif t[0] == "tol" and ob.startswith("ok "):
             vals = [v for f in flows for v in f[3].data.values()] + [v for s in stocks for v in s[2].data.values()]
-            if any(v == "nan" for v in vals):
-                continue
-            want = EPS * max([abs(v) for v in vals] + [Fraction(0)])
+            # NaN entries are not magnitudes: the tolerance is scaled to the largest *number*
+            want = EPS * max([abs(v) for v in vals if v != "nan"] + [Fraction(0)])
             got = ob.split(" ")[1]
             if got in ("nan", "inf", "-inf") or abs(pv(got) - want) > want / 10 ** 9:
                 return fail(ln, "the default tolerance is scaled to the largest flow or stock magnitude (every flow, every stock)", want, got)
@@ -130,8 +129,6 @@ def check_case(lines, obs):
             mx = max([abs(v) for v in allvals if v != "nan"] + [Fraction(0)])
             if t[0] == "cmb":
                 if t[1] == "-":
-                    if has_nan_in_tol:
-                        continue          # the default tolerance itself is NaN-dependent: no opinion
                     tol = 100 * EPS * mx
                 else:
                     tol = pv(t[1])
@@ -167,8 +164,6 @@ def check_case(lines, obs):
                         if ob.split(" ")[0] != "warned" or sorted(ob.split(" ")[1].split(",")) != sorted(failing):
                             return fail(ln, "check_mass_balance logs a warning naming exactly the unbalanced processes", want, ob)
             else:
-                if has_nan_in_tol and any(v == "nan" for s in stocks for v in s[2].data.values()):
-                    continue
                 tol = 100 * EPS * mx
                 exc = [] if t[1] == "-" else t[1].split(",")
                 flagged_nan, flagged_neg, unsure = [], [], False
@@ -179,19 +174,11 @@ def check_case(lines, obs):
                     if any(v == "nan" for v in vals):
                         flagged_nan.append(name)
                     nums = [v for v in vals if v != "nan"]
-                    if any(v < -tol * Fraction(11, 10) for v in nums) and not has_nan_in_tol:
+                    if any(v < -tol * Fraction(11, 10) for v in nums):
                         flagged_neg.append(name)
                     elif any(-tol * Fraction(11, 10) <= v < -tol * Fraction(9, 10) and v != 0 for v in nums):
                         unsure = True
-                if unsure or (has_nan_in_tol and not flagged_nan):
-                    continue
-                if has_nan_in_tol:
-                    # the tolerance is NaN-dependent: only the NaN flags are certain
-                    got = ob.split(" ")
-                    if t[2] == "1" and ob != "raised":
-                        return fail(ln, "check_flows raises on a flow containing NaN", "raised", ob)
-                    if t[2] == "0" and (got[0] != "warned" or not set(flagged_nan) <= set(got[1].split(","))):
-                        return fail(ln, "check_flows flags the flows containing NaN", flagged_nan, ob)
+                if unsure:
                     continue
                 flagged = flagged_nan + flagged_neg
                 if not flagged and ob != "ok":
